@@ -48,12 +48,21 @@ def stream_plan(ctx, built, ncases, name="S-plan"):
                    "1..12 columns, max_weight 2..30, thresholds 0..0.5, every main column choice, RNG recorded; solve_with_features on random "
                    "feature lists; plans compared exactly; non-trivial = plan with >= 1 derived cluster, distinct by input")
     lines, exps = [], []
+    prev = None
     for ci in range(ncases):
-        n = R.choice([1, 2, 4, 5, 5, 6, 7, 8, 9, 10, 12])
-        style, m = gen_matrix(R, n)
-        ent = np.array([R.choice([0.0, 0.5, 1.0, 2.0, 3.3, 7.0, 14.0, 40.0, R.random() * 10]) for _ in range(n)])
-        main = R.choice([None, None, 0, 0, n - 1, R.randrange(n)])
-        maxw = R.choice([2.0, 5.0, 8.0, 15.0, 15.0, 30.0]); th = R.choice([0.0, 0.05, 0.1, 0.1, 0.3, 0.5]); alpha = R.choice([1e-2, 5e-2, 0.2]) if ctx.tier == 'thorough' else R.choice([5e-2, 0.2, 0.2, 1.0])
+        again = ci > 0 and prev is not None and prev[0] >= 5 and R.random() < 0.3
+        if again:
+            # the measured table of the previous case once more, with another main column (a sweep over main columns in one interpreter)
+            n, style, m, ent, maxw, th, alpha, pmain = prev
+            main = R.choice([x for x in [None, 0, n - 1, R.randrange(n)] if x != pmain])
+            style = style + "+again"
+        else:
+            n = R.choice([1, 2, 4, 5, 5, 6, 7, 8, 9, 10, 12])
+            style, m = gen_matrix(R, n)
+            ent = np.array([R.choice([0.0, 0.5, 1.0, 2.0, 3.3, 7.0, 14.0, 40.0, R.random() * 10]) for _ in range(n)])
+            main = R.choice([None, None, 0, 0, n - 1, R.randrange(n)])
+            maxw = R.choice([2.0, 5.0, 8.0, 15.0, 15.0, 30.0]); th = R.choice([0.0, 0.05, 0.1, 0.1, 0.3, 0.5]); alpha = R.choice([1e-2, 5e-2, 0.2]) if ctx.tier == 'thorough' else R.choice([5e-2, 0.2, 0.2, 1.0])
+        prev = (n, style.replace("+again", ""), m, ent, maxw, th, alpha, main)
         tpc = [sum(m[i, j] for j in range(n) if i != j) for i in range(n)]
         rng = TS.RecRandom(ci)
         cc = ClusteringContext(dependency_matrix=m, entropy_1dim=ent, total_dependence_per_column=tpc, total_dependence=sum(tpc),
@@ -76,7 +85,7 @@ def stream_plan(ctx, built, ncases, name="S-plan"):
         if n <= 4 and (not direct) and (list(c.initial_cluster) != list(range(n)) or c.derived_clusters):
             ctx.oracle_fail(f"{n} columns did not form a single cluster: {clusters_str(c)}", case, "plan-small")
         # determinism: same inputs and RNG state -> same plan
-        if R.random() > 0.25:
+        if R.random() > 0.25 and not again:
             continue
         cc2 = ClusteringContext(dependency_matrix=m.copy(), entropy_1dim=ent.copy(), total_dependence_per_column=list(tpc), total_dependence=sum(tpc),
                                 anonymization_params=AnonymizationParams(), bucketization_params=BucketizationParams(), rng=random.Random(ci), main_column=main)
